@@ -306,7 +306,8 @@ Fixpoint pyro_leading_fraction (s : bytes) (x : Z) (scale : fl) (overflow : bool
 
 Definition is_dot_or_digit (c : N) : bool := N.eqb c 46 || is_digit c.
 
-(* float64(f) * (float64(unit) / scale) converted to an integer type holding values < lim *)
+(* float64(f) * (float64(unit) / scale) truncated; the callers flag a value outside the target integer type's range
+   (int64: [0, 2^63) is what can occur; uint64: [0, 2^64)) as implementation-defined *)
 Definition frac_part (f unit : Z) (scale : fl) : Z := f_trunc (f_mul (f_of_Z f) (f_div (f_of_Z unit) scale)).
 
 Fixpoint pyro_loop (fuel : nat) (s : bytes) (d : Z) : pres Z :=
@@ -342,7 +343,7 @@ Fixpoint pyro_loop (fuel : nat) (s : bytes) (d : Z) : pres Z :=
             let v1 := wrap64 (v * unit) in
             if 0 <? f then
               let t := frac_part f unit scale in
-              if two63 <=? t then PImplDefined else
+              if (t <? 0) || (two63 <=? t) then PImplDefined else
               let v2 := wrap64 (v1 + t) in
               if v2 <? 0 then PErr else
               let d' := wrap64 (d + v2) in
@@ -437,7 +438,7 @@ Fixpoint std_loop_b (B : Z) (fuel : nat) (s : bytes) (d : Z) : pres Z :=
             let v1 := wrapu64 (v * unit) in
             if 0 <? f then
               let t := frac_part f unit scale in
-              if two64 <=? t then PImplDefined else
+              if (t <? 0) || (two64 <=? t) then PImplDefined else
               let v2 := wrapu64 (v1 + t) in
               if B <? v2 then PErr else
               let d' := wrapu64 (d + v2) in
